@@ -51,6 +51,12 @@ CHECKS = {
  "C15": ("dbsim", "exploration", "deterministic simulation: invariant monitor comparing incremental index state with a rebuild after every step",
          "After every step: primary-key and unique hash indexes equal those of a clone after rebuild_indexes(); every user index equals the same definition created from scratch on a clone.",
          "Sampling. Observation through public accessors only.", "6/C15"),
+ "C16": ("dbsim", "exploration", "deterministic simulation: seeded histories on three twin databases whose indexes live in memory / are spilled by a tiny memory budget / are disk-backed from creation, index files on a simulated disk behind the real StorageBackend trait",
+         "Same history, three index storage configurations; base tables, accept/reject decisions and every probe (multiset; sequence under total ORDER BY) must agree after each step. The evidence counts how many indexes really became disk-backed in each twin.",
+         "Sampling. No I/O faults are injected into the index files (the listed properties are silent about them); transactions are not part of this workload.", "6/C16"),
+ "C17": ("dbsim", "exploration", "deterministic simulation of the real BTreeIndex + PageManager over a simulated disk: seeded operation sequences in ramp-up/drain phases vs a BTreeMap reference model, independent structure check of the persisted bytes after every mutation",
+         "Every answer (lookup, multi_lookup, range_scan with all bound combinations, delete / delete_specific results) is compared with an ordered-multimap model; after every mutation an independent parser walks the pages read back from the simulated disk: sorted keys, separator invariants, uniform leaf depth, complete leaf chain, no page reachable twice, leaf entries = model. BTreeIndex::load on the same pages must answer like the live object.",
+         "Sampling (<= 400 operations per run, degrees 5..215, heights 1..5 reached). At most 40 row ids per key. Re-opening the page file is not exercised.", "6/C17"),
  "C18": ("dbsim", "exploration", "deterministic simulation: restart (save -> drop -> load) injected at seeded points; restarted twin vs reference twin",
          "Restart in binary / compressed / JSON format is one more generated operation; tables, columns, rows (bit-exact), index list and all probes must agree between the restarted and the reference twin, immediately and as the history continues.",
          "Sampling. INTEGER/VARCHAR columns in this scenario. Constraints are not among the things the statement promises, so accept/reject differences after a reload end the run without alarm.", "6/C18"),
